@@ -7,23 +7,27 @@ P="$1"; D=$(cd "$2" && pwd); shift 2
 CHECKS="${*:-$P}"
 WT=/tmp/st-$$
 git -C /repo worktree add -q --detach $WT HEAD || exit 2
-trap 'git -C /repo worktree remove --force $WT >/dev/null 2>&1; git -C /repo checkout -q -- . ' EXIT
+trap 'git -C /repo worktree remove --force $WT >/dev/null 2>&1; git -C /repo checkout -q -- .
+rm -f /tmp/st-$$.patch ' EXIT
 cp "$D/demo_test.go" $WT/larking/zz_mutdemo_test.go
 ( cd $WT && go test -vet=off -count=1 -run 'TestMutDemo' ./larking/ >/tmp/st-$$.a 2>&1 ); A=$?
 rm $WT/larking/zz_mutdemo_test.go
-git -C $WT apply "$D/patch.diff" || { echo "SEED $P $D: patch does not apply"; exit 2; }
+git -C $WT apply "$D/patch.diff" 2>/dev/null || git -C $WT apply --3way "$D/patch.diff" >/dev/null 2>&1 || { echo "SEED $P $D: patch does not apply"; exit 2; }
+git -C $WT diff HEAD > /tmp/st-$$.patch   # the change against the current HEAD (refreshed if it had drifted)
 ( cd $WT && go build ./... >/tmp/st-$$.b 2>&1 ); B=$?
 ( cd $WT && go test -vet=off -count=1 ./... >/tmp/st-$$.s 2>&1 ); S=$?
 cp "$D/demo_test.go" $WT/larking/zz_mutdemo_test.go
 ( cd $WT && go test -vet=off -count=1 -run 'TestMutDemo' ./larking/ >/tmp/st-$$.c 2>&1 ); C=$?
 echo "SEED $P $(basename $D): demo-without-change rc=$A (want 0) build rc=$B (want 0) suite rc=$S (want 0) demo-with-change rc=$C (want !=0)"
 [ $S -ne 0 ] && tail -15 /tmp/st-$$.s
-rm -f /tmp/st-$$.*
+rm -f /tmp/st-$$.a /tmp/st-$$.b /tmp/st-$$.c /tmp/st-$$.s
 git -C /repo worktree remove --force $WT >/dev/null 2>&1
-git -C /repo apply "$D/patch.diff" || exit 2
+git -C /repo apply /tmp/st-$$.patch || exit 2
+cp /tmp/st-$$.patch "$D/patch.diff"
 for c in $CHECKS; do
   OUT=$(cd /verif && VERIF_NOEVIDENCE=1 ./check $c --tier quick 2>&1 | tail -4)
   echo "$OUT" | grep -q '^VIOLATION' && echo "  check $c: CAUGHT  $(echo "$OUT" | grep '^VIOLATION')" || echo "  check $c: MISSED"
   echo "$OUT" | grep -v '^VIOLATION' | tail -2 | sed 's/^/    /'
 done
 git -C /repo checkout -q -- .
+rm -f /tmp/st-$$.patch
